@@ -296,7 +296,7 @@ func (s *Stream) ReceiveFrame(ctx context.Context) ([]byte, error) {
 	messageLength := binary.BigEndian.Uint32(header[1:5])
 
 	// Validate message size
-	if messageLength > MaxMessageSize {
+	if messageLength > s.maxWireLength() {
 		return nil, fmt.Errorf("message too large: %d bytes (max %d)", messageLength, MaxMessageSize)
 	}
 
@@ -351,7 +351,7 @@ func (s *Stream) ReceiveFrameWithEnd(ctx context.Context) ([]byte, byte, error) 
 	messageLength := binary.BigEndian.Uint32(header[1:5])
 
 	// Validate message size
-	if messageLength > MaxMessageSize {
+	if messageLength > s.maxWireLength() {
 		return nil, 0, fmt.Errorf("message too large: %d bytes (max %d)", messageLength, MaxMessageSize)
 	}
 
@@ -949,6 +949,18 @@ func NewStreamWithCryptoState(conn net.Conn, blob []byte) (*Stream, error) {
 	}
 
 	return s, nil
+}
+
+// maxWireLength is the largest frame length the receiver accepts. The sender
+// limits the PLAINTEXT of a frame to MaxMessageSize; on an encrypted stream the
+// wire length additionally carries the 16-byte GCM tag and, on the first frame,
+// the 16-byte IV, so the receiver must allow for that overhead or it would
+// reject frames its own sender accepted.
+func (s *Stream) maxWireLength() uint32 {
+	if s.gcm != nil && s.encrypted {
+		return MaxMessageSize + 32
+	}
+	return MaxMessageSize
 }
 
 // calculateEncryptedSize returns the size of data after AES-GCM encryption
